@@ -365,6 +365,9 @@ def main(modname, argv=None):
             wall_s=round(wall, 2), violations=len(new),
             known_findings_seen=list(seen_known),
         )
+        tv = sum(pp["extra"].get("traces_validated_against_impl", 0) for pp in per_part.values())
+        if tv:
+            ev["coverage"]["traces_validated_against_impl"] = tv
         exh = [pp.get("exhaustive") for pp in per_part.values() if "exhaustive" in pp]
         if exh and all(exh) and len(exh) == len(per_part):
             ev["coverage"]["exhaustive"] = True
